@@ -491,11 +491,12 @@ func (b *Builder) SetRevisionDate(o interface{}, revisionDate string) {
 }
 
 func (b *Builder) Unique(o interface{}, unique string) {
-	i, valid := o.(*List)
+	// lists and the deviate statements that add or delete unique
+	i, valid := o.(HasUnique)
 	if !valid {
-		b.setErr(fmt.Errorf("%T does not support key, only lists do", o))
+		b.setErr(fmt.Errorf("%T does not support unique", o))
 	} else {
-		i.unique = append(i.unique, strings.Split(unique, " "))
+		i.setUnique(append(i.Unique(), strings.Split(unique, " ")))
 	}
 }
 
